@@ -372,7 +372,11 @@ def client_stage(c):
         except Exception:  # pylint: disable=broad-except
           continue
         dumped = sl.dump_space(ss)
-        made = _try(lambda: clients.Study.from_study_config(study_config_of(ss), owner='o', study_id='c17_%s_%d_%d' % (bname, c.seed, si)))
+        # every other space re-uses ONE study name: the study is deleted after its trials were read and created
+        # again with the next search space (anything remembered per study name - a cached configuration - is stale then)
+        shared = si % 2 == 0
+        sid = 'c17_%s_%d_%s' % (bname, c.seed, 'shared' if shared else str(si))
+        made = _try(lambda: clients.Study.from_study_config(study_config_of(ss), owner='o', study_id=sid))
         if made[0] != 'ok':
           # building the space succeeded locally (sl.build_space), so the service must accept it or say why
           c.prop_fail('valid-study-config-rejected', 'a study over a valid search space cannot be created through the client (%s): %s' % (bname, str(made[1])[:200]),
@@ -410,6 +414,10 @@ def client_stage(c):
                          'out': enc_out(real[1]) if real[0] == 'ok' else None})
           stored_ok = {k: sl.tag(v) for k, v in stored_trial.items()} == {k: sl.tag(wire_py(v)) for k, v in a.items()}
           meta.append((bname, dumped, a, kind, real, space_changed, stored_ok))
+        if shared:
+          gone = _try(study.delete)
+          if gone[0] != 'ok':
+            raise core.InfraError('cannot delete study %s: %s' % (sid, gone[1]))
   finally:
     # never leave the default (a SQLite FILE inside the repo tree, constants.SQL_LOCAL_URL) behind
     vizier_client.environment_variables.servicer_kwargs = dict(saved, database_url=saved.get('database_url'))
